@@ -208,6 +208,12 @@ def run(ctx):
             ctx.ob("R-C01.5", fn, "journaled-operation-is-applied", not rets2,
                    "after the append every success path applies the operation to the tree" if not rets2 else "the operation can be journaled and acknowledged without being applied to the tree", nontrivial=bool(rets2))
 
+    # ---- borrowed obligations (mechanisms owned by other properties that this property's verdict also rests on)
+    # journal rotation is invisible only if no sealed journal is deleted while a keyspace still needs it
+    ctx.borrow("C10", ["R-C10.1"], "R-C01.6")
+    # point reads and scans agree only if both read at a view instant
+    ctx.borrow("C14", ["R-C14.6"], "R-C01.7")
+
 
 def journal_kind_rules(ctx, rule):
     """what a single write journals is what it applies (shared with C04: replay applies by the journaled kind)"""
